@@ -15,6 +15,8 @@ ASSUMPTIONS = ["sequential use of progress.Stats for the aggregation theorems (m
 
 def corpus():
     return [
+        "progress.stress 8 60000 0 0 rising",              # C04k: every record a new maximum / minimum: no recorder may get stuck publishing it
+        "progress.stress 16 30000 3 0 rising",
         "progress.seq s9007199254740993,s1,T",        # C17l: sums beyond 2^53 ns (2500 hours of iteration time) are still exact integers
         "progress.seq f9007199254740993,f3,S1,f1,T",
         "progress.seq s3600000000001,s3600000000001,s3600000000001,S1,s9007199254740993,T",
